@@ -23,7 +23,7 @@ Definition exJ : job := {|
 Definition exE : env := {| e_host := list_to_map [(0, 0); (1, 0); (2, 1)]; e_gpu := {[2]} |}.
 
 Definition ex_labels : list label := [
-  LAssign 0 0 ∅; LFlush; LFinish 0; LDeliver (EPub 0 (0, 0)); LFlush; LFetch ((0, 0), 0);
+  LAssign 0 0 ∅; LFlush; LPublish 0 0; LDeliver (EPub 0 (0, 0)); LFlush; LFetch ((0, 0), 0);
   LAssign 2 1 {[(0, 0) := 0]}; LFlush; LXfer ((0, 0), 0, 1); LDeliver (EPay (0, 0) (Some (0, 0)));
-  LFinish 2; LDeliver (EXfer 1 (0, 0)); LDeliver (EPub 2 (1, 0)); LDeliver (EPub 2 (1, 1));
-  LAssign 1 2 {[(1, 1) := 1]}; LFlush; LXfer ((1, 1), 1, 0); LFinish 1; LDeliver (EPub 1 (2, 0)); LFlush ].
+  LPublish 2 0; LPublish 2 1; LDeliver (EXfer 1 (0, 0)); LDeliver (EPub 2 (1, 0)); LDeliver (EPub 2 (1, 1));
+  LAssign 1 2 {[(1, 1) := 1]}; LFlush; LXfer ((1, 1), 1, 0); LPublish 1 0; LDeliver (EPub 1 (2, 0)); LFlush ].
